@@ -13,6 +13,7 @@ pub mod c10;
 pub mod c11;
 pub mod c12;
 pub mod c13;
+pub mod c14;
 pub mod c15;
 pub mod c16;
 pub mod c17;
@@ -70,6 +71,7 @@ simple_checks! {
     "C06" => c06,
     "C12" => c12,
     "C13" => c13,
+    "C14" => c14,
     "C15" => c15,
     "C17" => c17,
     "C18" => c18,
